@@ -242,7 +242,8 @@ type Server struct {
 
 	nextProtos map[string]ServeHandler
 
-	concurrencyCh chan struct{}
+	concurrencyCh     chan struct{}
+	concurrencyChOnce sync.Once
 
 	idleConns map[net.Conn]*atomic.Int64
 	done      chan struct{}
@@ -1984,10 +1985,8 @@ func (s *Server) Serve(ln net.Listener) error {
 	if s.done == nil {
 		s.done = make(chan struct{})
 	}
-	if s.concurrencyCh == nil {
-		s.concurrencyCh = make(chan struct{}, maxWorkersCount)
-	}
 	s.mu.Unlock()
+	s.initConcurrencyCh()
 
 	wp := &workerPool{
 		WorkerFunc:            s.serveConn,
@@ -2223,6 +2222,7 @@ func (s *Server) ServeConn(c net.Conn) error {
 		return ErrConcurrencyLimit
 	}
 	defer s.releaseConcurrency()
+	s.initConcurrencyCh()
 
 	s.open.Add(1)
 	s.setState(c, StateNew)
@@ -2240,6 +2240,18 @@ func (s *Server) ServeConn(c net.Conn) error {
 		s.setState(c, StateHijacked)
 	}
 	return err
+}
+
+// initConcurrencyCh creates the channel TimeoutHandler uses to bound the number
+// of concurrently running wrapped handlers. Serve and ServeConn both need it:
+// without it a server that is only driven through ServeConn answered every
+// TimeoutHandler call with 429.
+func (s *Server) initConcurrencyCh() {
+	s.concurrencyChOnce.Do(func() {
+		if s.concurrencyCh == nil {
+			s.concurrencyCh = make(chan struct{}, s.getConcurrency())
+		}
+	})
 }
 
 func (s *Server) tryAcquireConcurrency() bool {
